@@ -146,7 +146,7 @@ def classify(ops, idx):
 
 def run(rep, tier, seed, b):
     rng = core.rng_for(seed, ID)
-    n = 800 if tier == 'quick' else 30000
+    n = 800 if tier == 'quick' else 12000
     hists = []
     for _ in range(n):
         ops = H.random_history(rng, translate=False)
